@@ -169,7 +169,7 @@ pub(crate) struct IoLoop {
     frames_after_handshake: Vec<AMQPFrame>,
 
     // Counts the steps a handshake has made (TLS: every time the peer has sent something;
-    // AMQP: every change of state). The connection timeout is pushed back by progress only, see run_io_loop.
+    // AMQP: every change of state, and every further piece of a frame still incomplete). The connection timeout is pushed back by progress only, see run_io_loop.
     handshake_progress: u64,
 
     // Bound for buffered outgoing writes. If we have more than this much data enqueued,
@@ -466,6 +466,7 @@ impl IoLoop {
         state: &mut HandshakeState<Auth>,
     ) -> Result<bool> {
         let after_handshake = &mut self.frames_after_handshake;
+        let pending_before = self.frame_buffer.pending();
         let result = self.inner.read_from_stream(
             stream,
             &mut self.frame_buffer,
@@ -477,6 +478,13 @@ impl IoLoop {
                 _ => state.process(inner, frame),
             },
         );
+        // More of a frame that is not complete yet: the peer is getting on with its step,
+        // it is not silent. (Heartbeats are whole frames and leave nothing behind; they
+        // still do not count.)
+        let pending = self.frame_buffer.pending();
+        if pending > 0 && pending != pending_before {
+            self.handshake_progress += 1;
+        }
         if result.is_err() {
             match state {
                 HandshakeState::ServerClosing(_) => {
